@@ -54,6 +54,8 @@ def count(lo, hi):
 def nontrivial(op, result):
     if op.startswith("cmp ") or op.startswith("regs "):
         return result != "bad-op"
+    if op.startswith("out "):
+        return result != "bad-op"
     return " n=0 " not in result and not result.endswith("cells=-") and result != "bad-op"
 
 
@@ -189,9 +191,9 @@ def batches(rng, tier):
     ops = []
     for i, d in enumerate(everyd + bigd):
         s = L(d)
-        ops += [f"mk {s} {i % 7}", f"mkc {s} {i % 5 - 2}", f"all {s}", f"refall {s} {i % 4}", f"fill {s} {-i} {i % 6}",
+        ops += [f"mk {s} {i % 7}", f"mkc {s} {i % 5 - 2}", f"all {s}", f"refall {s} {i % 4}", f"fill {s} {-i} {i % 6}", f"out {s} {i % 3}",
                 f"map {s} {i % 3} {i % 5 - 2} {i % 7 - 3}", f"apply {s} 1 {s} 2", f"apply {s} 1 {s} 2 {s} 3"]
-    yield Batch("whole-grid-all-sizes", ops, exhaustive=True, note="function/value constructor, make_pos_range, make_pos_ref_(c)range, fill, map, apply(2,3 equal sizes) on every size 0..4^N")
+    yield Batch("whole-grid-all-sizes", ops, exhaustive=True, note="function/value constructor, make_pos_range, make_pos_ref_(c)range, fill, operator<<, map, apply(2,3 equal sizes) on every size 0..4^N")
 
     # ---- pos_range: every (min, sup) in a window
     ops = []
